@@ -329,6 +329,56 @@ def run(tier: str) -> int:
     return chk.finish()
 
 
+def selftest(tier: str) -> int:
+    """In-process mutation probes (never /repo)."""
+    from contextlib import contextmanager
+    from . import boot
+    from .core import run_probes
+    boot.setup()
+    import django_components.dependencies as dd
+
+    @contextmanager
+    def patch(obj, name, new):
+        old = getattr(obj, name)
+        setattr(obj, name, new)
+        try:
+            yield
+        finally:
+            setattr(obj, name, old)
+
+    def media_not_deduplicated():
+        def pp(script_type, tags):
+            import re as _re
+            pat = dd.src_pattern if script_type == "js" else dd.href_pattern
+            return list(tags), [pat.search(t).group(1) for t in tags]
+        return patch(dd, "_postprocess_media_tags", pp)
+
+    def blank_code_inlined():
+        return patch(dd, "is_nonempty_str", lambda s: s is not None)
+
+    def inline_js_order_reversed():
+        orig = dd._prepare_tags_and_urls
+
+        def f(data, type):
+            r = list(orig(data, type))
+            r[2] = list(reversed(r[2]))
+            return tuple(r)
+        return patch(dd, "_prepare_tags_and_urls", f)
+
+    def fragment_declares_no_css():
+        orig = dd._gen_exec_script
+
+        def f(to_load_js_tags, to_load_css_tags, loaded_js_urls, loaded_css_urls):
+            return orig(to_load_js_tags=to_load_js_tags, to_load_css_tags=[], loaded_js_urls=loaded_js_urls,
+                        loaded_css_urls=loaded_css_urls)
+        return patch(dd, "_gen_exec_script", f)
+
+    return run_probes(PID, [("media-files-not-deduplicated", media_not_deduplicated), ("blank-code-inlined", blank_code_inlined),
+                            ("inline-js-order-reversed", inline_js_order_reversed),
+                            ("fragment-declares-no-css", fragment_declares_no_css)],
+                      lambda chk: body(chk, mc_nodes=2, n_random=300, deep=3))
+
+
 def replay(path: str) -> int:
     from . import boot
     boot.setup()
